@@ -216,8 +216,22 @@ def collect(check_name: str, runs: int, out_path: str) -> int:
     return core.EXIT_HARNESS if errors else core.EXIT_OK
 
 
+def _remove_stale_roots() -> None:
+    """Simulation roots of driver/worker processes that no longer exist (killed runs)."""
+    base = Path("/dev/shm")
+    if not base.is_dir():
+        return
+    for path in base.glob("simverif-*"):
+        parts = path.name.split("-")
+        pid = next((p for p in parts[1:] if p.isdigit()), None)
+        if pid is None or os.path.exists(f"/proc/{pid}"):
+            continue
+        shutil.rmtree(path, ignore_errors=True)
+
+
 def run_check(check_name: str, tier: str, runs: int, budget_s: float, options: dict | None = None) -> int:
     """Run a check over runs 0..runs-1 (or until the budget), write evidence, print verdict."""
+    _remove_stale_roots()
     import importlib  # noqa: PLC0415
 
     options = dict(options or {})
